@@ -666,7 +666,11 @@ func inventory(root string) (all []string, unexpected []string) {
 }
 
 func assumptions(prop string) []string {
-	all, unexp := inventory("/repo")
+	root := os.Getenv("VERIF_REPO")
+	if root == "" {
+		root = "/repo"
+	}
+	all, unexp := inventory(root)
 	a := []string{
 		"the code between two yield points is atomic with respect to other tasks; sound iff no memory other than the pooled printer is shared, which the race monitor checks on every race-build run",
 		"SimPool implements exactly the documented sync.Pool contract (any idle item or a new one; items may vanish); races that need the real pool's internals are out of reach",
